@@ -7,6 +7,8 @@
 -/
 import BumpProof.Arena.Step
 
+set_option linter.unusedSimpArgs false
+
 namespace Arena
 open Rs
 
